@@ -10,7 +10,7 @@ import sys
 sys.path.insert(0, os.path.dirname(os.path.dirname(os.path.abspath(__file__))))
 from harness.core import main  # noqa
 from harness import programs  # noqa
-from checks import dagexec_p1, seqexec  # noqa
+from checks import dagexec_p1, seqexec, suitetrace  # noqa
 
 
 def qr_program(rng):
@@ -74,6 +74,7 @@ def run(chk):
             chk.violation(f"trace rejected by TaskTrace clause {verdict} at event {l}: "
                           f"{ {k2: v for k2, v in (ev or {}).items() if v not in ('', [], -1, False)} } untrue metadata={bad[:2]}",
                           replay=dict(meta=meta, clause=verdict, at=l, event=ev, untrue=bad))
+    suitetrace.run(chk, "C12", files=None if chk.tier == "thorough" else suitetrace.QUICK_FILES_WRITES)   # every zarr-level write of the repository's own tests
     chk.extra["n_errors_in_execution"] = len(errors)
     chk.extra["errors_in_execution"] = errors[:5]
 
